@@ -123,6 +123,11 @@ def run(chk):
         chk.notes.append(note)
     else:
         H.c17b_run(chk)
+        try:
+            from areas import hashl
+            hashl.link_level_run(chk)
+        except ImportError:
+            pass
         missing = [t for t in H.THEOREMS["C17"] if t not in chk.theorems]
         if missing:
             chk.theorems.update(vlib.audit(missing, H.IMPORTS))
